@@ -256,6 +256,12 @@ pub enum Content {
     /// float types: every value subnormal (flush-to-zero / denormals-are-zero modes of the
     /// FPU change the result); integer types: small values
     Tiny,
+    /// float types: ill-conditioned sums - +B, -B (B = 2^55..2^100) interleaved with values in
+    /// 0..1, in one of four period-4 patterns along x + y: whenever a kernel gives the two big
+    /// values the same weight (Box at integer ratios, mirrored taps of a symmetric kernel) the
+    /// result depends on the *order* of the additions, which must therefore not depend on the
+    /// band a pixel falls into; integer types: same as Random
+    Cancel,
 }
 
 #[derive(Clone, Debug, PartialEq, Serialize, Deserialize)]
